@@ -205,12 +205,12 @@ func c10BoundedJoins(r *Run) {
 	const rule = "C10-R2-bounded-joins"
 	w := r.W
 	allowed := map[string]string{
-		"hsms.Close|hsms.connection.supWg":          "follows sup.stop(): run/notifier exit as soon as stopCh closes; neither blocks on user code except a handler that returns (property precondition)",
-		"hsms.Close|hsms.connection.connectLoopWg":  "fenced: shutdown+reconnectGen set and reconnectCancel closed before the wait; the loop's sleep and fence observe them",
-		"hsms.Open|hsms.connection.connectLoopWg":   "fenced by the reconnectGen bump made just before",
-		"hsms.Open|hsms.connection.supWg":           "failed-Open rollback after sup.stop()",
-		"hsmsss.Stop|hsmsss.genWG.accept":             "the listener was closed just before: Accept returns immediately",
-		"secs1.Stop|secs1.genWG.accept":              "the listener was closed just before: Accept returns immediately",
+		"hsms.Close|hsms.connection.supWg":         "follows sup.stop(): run/notifier exit as soon as stopCh closes; neither blocks on user code except a handler that returns (property precondition)",
+		"hsms.Close|hsms.connection.connectLoopWg": "fenced: shutdown+reconnectGen set and reconnectCancel closed before the wait; the loop's sleep and fence observe them",
+		"hsms.Open|hsms.connection.connectLoopWg":  "fenced by the reconnectGen bump made just before",
+		"hsms.Open|hsms.connection.supWg":          "failed-Open rollback after sup.stop()",
+		"hsmsss.Stop|hsmsss.genWG.accept":          "the listener was closed just before: Accept returns immediately",
+		"secs1.Stop|secs1.genWG.accept":            "the listener was closed just before: Accept returns immediately",
 	}
 	n := 0
 	for _, fn := range w.ProdFns() {
